@@ -319,6 +319,37 @@ fn alloc_bytes<'tcx>(tcx: TyCtxt<'tcx>, alloc_id: mir::interpret::AllocId, max: 
     }
 }
 
+/// structural view of a constant of ADT / tuple / array type: {variant, fields: [...]} with scalar leaves as {v}
+fn destructure_json<'tcx>(tcx: TyCtxt<'tcx>, cv: mir::ConstValue, t: Ty<'tcx>, depth: usize) -> Option<J> {
+    if depth > 4 {
+        return None;
+    }
+    match t.kind() {
+        ty::Bool | ty::Char | ty::Int(_) | ty::Uint(_) => {
+            if let mir::ConstValue::Scalar(mir::interpret::Scalar::Int(si)) = cv {
+                let sz = si.size();
+                let bits = si.to_bits(sz);
+                let val: i128 = if t.is_signed() { sz.sign_extend(bits) as i128 } else { bits as i128 };
+                return Some(J::obj(vec![("ty", ty_json(tcx, t)), ("v", J::i(val))]));
+            }
+            None
+        }
+        ty::Adt(..) | ty::Tuple(..) | ty::Array(..) => {
+            let d = tcx.try_destructure_mir_constant_for_user_output(cv, t)?;
+            let mut fs = vec![];
+            for (fv, fty) in d.fields.iter() {
+                fs.push(destructure_json(tcx, *fv, *fty, depth + 1)?);
+            }
+            let mut o: Vec<(&str, J)> = vec![("ty", ty_json(tcx, t)), ("fields", J::Arr(fs))];
+            if let Some(vi) = d.variant {
+                o.push(("variant", J::i(vi.index() as i128)));
+            }
+            Some(J::obj(o))
+        }
+        _ => None,
+    }
+}
+
 fn const_operand_json<'tcx>(tcx: TyCtxt<'tcx>, c: &ConstOperand<'tcx>, owner: Option<DefId>) -> J {
     let t = c.const_.ty();
     let mut v: Vec<(&str, J)> = vec![("k", J::s("const")), ("ty", ty_json(tcx, t)), ("s", J::s(&format!("{}", c.const_)))];
@@ -335,6 +366,13 @@ fn const_operand_json<'tcx>(tcx: TyCtxt<'tcx>, c: &ConstOperand<'tcx>, owner: Op
                     v.push(("evaluated_from", J::s(&path(tcx, uv.def))));
                     cst = mir::Const::Val(val, uty);
                 }
+            }
+        }
+    }
+    if let mir::Const::Val(cv, cty) = cst {
+        if matches!(cty.kind(), ty::Adt(..) | ty::Tuple(..)) {
+            if let Some(d) = destructure_json(tcx, cv, cty, 0) {
+                v.push(("destructured", d));
             }
         }
     }
@@ -865,6 +903,20 @@ fn dump_crate<'tcx>(tcx: TyCtxt<'tcx>, name: &str) -> J {
             promoteds.push(body_json(tcx, did, pb, Some(i.index())));
         }
     }
+    // bodies of local const items / associated consts (evaluated by the analyser when they depend on generic parameters)
+    let mut consts = vec![];
+    for ldid in tcx.mir_keys(()).iter() {
+        let did = ldid.to_def_id();
+        if !matches!(tcx.def_kind(did), DefKind::Const { .. } | DefKind::AssocConst { .. }) {
+            continue;
+        }
+        let body = tcx.mir_for_ctfe(did);
+        let mut b = body_json(tcx, did, body, None);
+        if let J::Obj(ref mut fields) = b {
+            fields.push(("generics".to_string(), J::Arr(generic_names(tcx, did))));
+        }
+        consts.push(b);
+    }
     // ADTs, traits and impls
     let mut adts = vec![];
     let mut traits = vec![];
@@ -1038,6 +1090,7 @@ fn dump_crate<'tcx>(tcx: TyCtxt<'tcx>, name: &str) -> J {
         ("rustc", J::s(env!("CARGO_PKG_VERSION"))),
         ("bodies", J::Arr(bodies)),
         ("promoted", J::Arr(promoteds)),
+        ("consts", J::Arr(consts)),
         ("adts", J::Arr(adts)),
         ("traits", J::Arr(traits)),
         ("impls", J::Arr(impls)),
